@@ -1,8 +1,8 @@
 # PyVC - discharge of proof obligations: z3 (API) first, cvc5 / z3-new CLI on unknown.
 import z3, time, subprocess, tempfile, os, re
 
-Z3_TIMEOUT_MS = int(os.environ.get('PYVC_Z3_TIMEOUT_MS', '10000'))
-CVC5_TIMEOUT_S = int(os.environ.get('PYVC_CVC5_TIMEOUT_S', '10'))
+Z3_TIMEOUT_MS = int(os.environ.get('PYVC_Z3_TIMEOUT_MS', '20000'))
+CVC5_TIMEOUT_S = int(os.environ.get('PYVC_CVC5_TIMEOUT_S', '20'))
 
 def _smt2(solver):
     txt = solver.to_smt2()
